@@ -8,32 +8,42 @@
  * defensive code outside the contracts */
 #define ZCK_OK_OLD(z) (V_OLD((z)->error_state) == 0)
 /* bytes available to the decoder: the callers pass (header+off, &off, total) */
-#define CI_AVAIL(len, max) ((max) - (len))
+/* a cursor at or beyond the limit leaves nothing to read: the decoder must fail without reading */
+#define CI_AVAIL(len, max) ((len) <= (max) ? (max) - (len) : (size_t)0)
+
+/* Decoder postcondition, evaluated once per call (spec functions read up to 10 bytes each; nesting
+ * them in several clauses multiplies the symbolic reads and makes caller units slow):
+ *   accepted  <=>  context clean  and  an encoding terminates within min(avail,10) bytes  and  its
+ *                  mathematical value fits the destination;
+ *   then *val is that value and *length advanced by exactly the encoding's length.
+ * On failure nothing more than the return value is demanded (property C20 only says "fails"). */
+static inline bool post_compint_decode(int ret, bool ok_old, const char *compint, size_t old_len,
+                                       size_t max_length, size_t new_len, v_u128 val, v_u128 limit) {
+    size_t n = spec_ci_len(compint, CI_AVAIL(old_len, max_length));
+    v_u128 v = spec_ci_val(compint, n);
+    bool valid = ok_old && n >= 1 && v <= limit;
+    if((ret == 1) != valid) return false;
+    if(ret != 1) return ret == 0;
+    return val == v && new_len == old_len + n;
+}
 
 int compint_to_size(zckCtx *zck, size_t *val, const char *compint, size_t *length,
                     size_t max_length)
 V_REQUIRES(__CPROVER_rw_ok(zck, sizeof(*zck)))
 V_REQUIRES(__CPROVER_rw_ok(val, sizeof(*val)) && __CPROVER_rw_ok(length, sizeof(*length)))
-V_REQUIRES(*length <= max_length)
 V_REQUIRES(__CPROVER_r_ok(compint, CI_AVAIL(*length, max_length)))
 V_ASSIGNS(*val, *length, zck->error_state)
-V_ENSURES(__CPROVER_return_value == 0 || __CPROVER_return_value == 1) /*@C20.to_size.ret01*/
-V_ENSURES((__CPROVER_return_value == 1) == (ZCK_OK_OLD(zck) && SPEC_CI_LEN(compint, CI_AVAIL(V_OLD(*length), max_length)) >= 1 && SPEC_CI_FITS64(compint, SPEC_CI_LEN(compint, CI_AVAIL(V_OLD(*length), max_length))))) /*@C20.to_size.accept_iff_valid*/
-V_ENSURES(__CPROVER_return_value != 1 || *val == (size_t)SPEC_CI_VAL(compint, SPEC_CI_LEN(compint, CI_AVAIL(V_OLD(*length), max_length)))) /*@C20.to_size.value*/
-V_ENSURES(__CPROVER_return_value != 1 || *length == V_OLD(*length) + SPEC_CI_LEN(compint, CI_AVAIL(V_OLD(*length), max_length))) /*@C20.to_size.length*/
+V_ENSURES(post_compint_decode(__CPROVER_return_value, ZCK_OK_OLD(zck), compint, V_OLD(*length), max_length, *length, (v_u128)*val, (v_u128)UINT64_MAX)) /*@C20.to_size.accepts_iff_valid_and_decodes_the_exact_value_and_length*/
 ;
 
 int compint_to_int(zckCtx *zck, int *val, const char *compint, size_t *length,
                    size_t max_length)
 V_REQUIRES(__CPROVER_rw_ok(zck, sizeof(*zck)))
 V_REQUIRES(__CPROVER_rw_ok(val, sizeof(*val)) && __CPROVER_rw_ok(length, sizeof(*length)))
-V_REQUIRES(*length <= max_length)
 V_REQUIRES(__CPROVER_r_ok(compint, CI_AVAIL(*length, max_length)))
 V_ASSIGNS(*val, *length, zck->error_state)
-V_ENSURES(__CPROVER_return_value == 0 || __CPROVER_return_value == 1) /*@C20.to_int.ret01*/
-V_ENSURES((__CPROVER_return_value == 1) == (ZCK_OK_OLD(zck) && SPEC_CI_LEN(compint, CI_AVAIL(V_OLD(*length), max_length)) >= 1 && SPEC_CI_FITSINT(compint, SPEC_CI_LEN(compint, CI_AVAIL(V_OLD(*length), max_length))))) /*@C20.to_int.accept_iff_fits_int*/
-V_ENSURES(__CPROVER_return_value != 1 || (*val >= 0 && (v_u128)*val == SPEC_CI_VAL(compint, SPEC_CI_LEN(compint, CI_AVAIL(V_OLD(*length), max_length))))) /*@C20.to_int.value*/
-V_ENSURES(__CPROVER_return_value != 1 || *length == V_OLD(*length) + SPEC_CI_LEN(compint, CI_AVAIL(V_OLD(*length), max_length))) /*@C20.to_int.length*/
+V_ENSURES(__CPROVER_return_value != 1 || *val >= 0) /*@C20.to_int.nonnegative*/
+V_ENSURES(post_compint_decode(__CPROVER_return_value, ZCK_OK_OLD(zck), compint, V_OLD(*length), max_length, *length, (v_u128)(unsigned)*val, (v_u128)INT_MAX)) /*@C20.to_int.accepts_iff_fits_int_and_decodes_the_exact_value_and_length*/
 ;
 
 /* Encoder: writes the minimal encoding of val (n = SPEC_CI_ENCLEN(val) <= 10 bytes) at
